@@ -170,6 +170,17 @@ func placements() []placement {
 		{"when-on-augment-in-uses-around-a-uses-with-its-own-when", "b", "urn:b", func(s string) (string, string) {
 			return "grouping g { container gc { leaf k { type string; } } } grouping g2 { leaf l2 { type string; } }", "container host { uses a:g { augment gc { " + s + " uses a:g2 { when \"../k = 'x'\"; } } } }"
 		}, "/host/gc/l2", false},
+		// a when written on a case: a case with several members, with one member of another name, and
+		// with one member that has the case's own name (what a shorthand case looks like after parsing)
+		{"when-on-case-with-two-members", "a", "urn:a", func(s string) (string, string) {
+			return "container top { leaf k { type string; } choice ch { case tcp { " + s + " leaf port { type string; } leaf host { type string; } } leaf other { type string; } } }", ""
+		}, "/top/{choice ch}/{choice tcp}", false},
+		{"when-on-case-with-one-member", "a", "urn:a", func(s string) (string, string) {
+			return "container top { leaf k { type string; } choice ch { case stream { " + s + " leaf tcp { type string; } } leaf other { type string; } } }", ""
+		}, "/top/{choice ch}/{choice stream}", false},
+		{"when-on-case-named-like-its-only-member", "a", "urn:a", func(s string) (string, string) {
+			return "container top { leaf k { type string; } choice ch { case tcp { " + s + " leaf tcp { type string; } } leaf other { type string; } } }", ""
+		}, "/top/{choice ch}/{choice tcp}", false},
 		{"when-on-uses-inside-grouping-used-from-b", "a", "urn:b", func(s string) (string, string) {
 			return "grouping inner { container gc { leaf k { type string; } } } grouping outer { container o { uses inner { " + s + " } } }", "uses a:outer;"
 		}, "/o/gc", false},
